@@ -30,14 +30,18 @@ def pieceMatches (c : Cand) (loc : Nat → LocalPiece) (i : Nat) : Bool :=
   | some d => loc i == .hash d
   | none => false
 
-/-- **The acceptance condition of C18**: same name, same set of relative paths with sizes,
-    piece length within the torrent's bounds, local content matching the candidate's hashes in
-    the first, middle and last piece of every file. -/
-def acceptable (t : Tor) (c : Cand) (loc : Nat → LocalPiece) : Bool :=
-  t.name == c.name && t.single == c.single &&
+/-- **The identity check of C18**: every path component is text, same name, same *kind*
+    (single-file / multi-file), same set of relative paths with sizes, piece length within the
+    torrent's bounds. -/
+def fileIdentity (t : Tor) (c : Cand) : Bool :=
+  !c.bytesPath && t.name == c.name && t.single == c.single &&
   (pathSizes t.name t.files).isPerm (pathSizes c.name c.files) &&
-  decide (t.plMin ≤ c.pieceLength) && decide (c.pieceLength ≤ t.plMax) &&
-  (specSamples c).all (pieceMatches c loc)
+  decide (t.plMin ≤ c.pieceLength) && decide (c.pieceLength ≤ t.plMax)
+
+/-- **The acceptance condition of C18**: the identity check, and local content matching the
+    candidate's hashes in the first, middle and last piece of every file. -/
+def acceptable (t : Tor) (c : Cand) (loc : Nat → LocalPiece) : Bool :=
+  fileIdentity t c && (specSamples c).all (pieceMatches c loc)
 
 /-- what the torrent must look like after accepting `c`: the candidate's piece length, hashes
     and file order; everything else as before -/
@@ -75,10 +79,37 @@ def firstFaithful (t : Tor) : List Item → Option Nat
 def locRaises (c : Cand) (loc : Nat → LocalPiece) : Bool :=
   (List.range c.hashes.length).any fun i => loc i == .sizeError || loc i == .readError
 
-/-- an item that certainly does not end the search with an exception -/
+/-- the layout of one kind of torrent as `validate()` lets it through and nothing odd in it: a
+    single-file torrent is one non-empty entry without components, a multi-file torrent a
+    non-empty list of entries that each have at least one component -/
+def wfKind (single : Bool) (files : List FileEnt) : Bool :=
+  if single then
+    match files with
+    | [f] => f.path.isEmpty && f.size != 0
+    | _ => false
+  else !files.isEmpty && files.all fun f => !f.path.isEmpty
+
+/-- the torrent `reuse()` is called on was made from its path -/
+def wfTor (t : Tor) : Bool := wfKind t.single t.files
+
+/-- a candidate without oddities: every path component is text; the layout fits its kind; piece
+    length and number of digests fit the layout (`validate()`); and the *spelling* of paths is
+    unambiguous between the torrent's and the candidate's entries — two entries with the same
+    joined path have the same components (fails for a component that contains the separator) -/
+def wfCand (t : Tor) (c : Cand) : Bool :=
+  !c.bytesPath && wfKind c.single c.files &&
+  decide (0 < c.pieceLength) &&
+  c.hashes.length == ((c.files.map (·.size)).sum + c.pieceLength - 1) / c.pieceLength &&
+  t.files.all fun f => c.files.all fun g => joined c.name g != joined c.name f || g.path == f.path
+
+/-- an item that must not end the search with an exception: an unreadable / undecodable /
+    invalid torrent file or a bad path only when there is a callback to report it to; **every
+    readable, valid torrent file** — one that fails the identity check is skipped without a look
+    at the content; one that passes it may end the search only when the local content itself
+    cannot be read as described (a local file of another size, an unreadable local file) -/
 def harmless (t : Tor) (cbPresent : Bool) : Item → Bool
   | .pathError => cbPresent
-  | .file (.torrent c) loc => !locRaises c loc && (!(acceptable t c loc) || t.files.isPerm c.files)
+  | .file (.torrent c) loc => !(fileIdentity t c && locRaises c loc)
   | .file _ _ => cbPresent
 
 /-- premise of completeness: a faithful candidate somewhere, only harmless items before it -/
